@@ -19,6 +19,7 @@ ENGINES = {
     'sparsesim': 'engines.sparsesim',
     'streamsim': 'engines.streamsim',
     'eqsim': 'engines.eqsim',
+    'eqsim_ll': 'engines.eqsim_ll',
 }
 
 KNOWN_FINDINGS = os.path.join(env.VERIF_ROOT, 'known_findings.json')
